@@ -8,6 +8,7 @@ import (
 	"crypto/sha256"
 	"crypto/x509"
 	"crypto/x509/pkix"
+	"encoding/asn1"
 	"fmt"
 	"strings"
 	"sync"
@@ -122,11 +123,12 @@ func oracleTerms(xs []*x509.Certificate) (string, string) {
 // ---------- chain plans ----------
 
 type certPlan struct {
-	spec       CertSpec
-	selfSigned bool   // issue self-signed regardless of position
-	signKey    string // sign with this pool key instead of the parent's
-	issuerCN   string // name this issuer instead of the parent's subject
-	twinOfNext bool   // same subject and key as the next certificate (a re-issued copy), signed by that key
+	spec            CertSpec
+	selfSigned      bool   // issue self-signed regardless of position
+	signKey         string // sign with this pool key instead of the parent's
+	issuerCN        string // name this issuer instead of the parent's subject
+	twinOfNext      bool   // same subject and key as the next certificate (a re-issued copy), signed by that key
+	issuerReordered bool   // the issuer field has the parent's attributes in another order (a different DN with the same String())
 }
 
 type chainPlan struct {
@@ -201,6 +203,14 @@ func (p *chainPlan) build() *builtChain {
 		}
 		if cp.issuerCN != "" {
 			spec.IssuerName = &pkix.Name{CommonName: cp.issuerCN, Organization: []string{"verif"}}
+		}
+		if cp.issuerReordered {
+			pcn := spec.CN // a self-issued certificate names itself
+			if parent != nil {
+				pcn = parent.Spec.CN
+			}
+			spec.IssuerName = &pkix.Name{ExtraNames: []pkix.AttributeTypeAndValue{
+				{Type: asn1.ObjectIdentifier{2, 5, 4, 3}, Value: pcn}, {Type: asn1.ObjectIdentifier{2, 5, 4, 10}, Value: "verif"}}}
 		}
 		var sk crypto.Signer
 		if cp.signKey != "" {
@@ -333,6 +343,23 @@ func chainMods() []chainMod {
 	add("ca-eku-server", true, caOnly(func(s *CertSpec, pos, n int) { s.EKU = []string{"server"}; s.EKUExt = ExtNonCritical }))
 	// --- issuance
 	add("wrong-issuer-name", false, anyPos(func(cp *certPlan, pos, n int) bool { cp.issuerCN = "somebody else"; return true }))
+	// the extended key usage extension as the first extension of the leaf, critical and not
+	add("leaf-eku-first", true, func(p *chainPlan, pos int, purpose string) bool {
+		if pos != 0 || len(p.certs[0].spec.EKU) == 0 {
+			return false
+		}
+		p.certs[0].spec.EKUFirst = true
+		return true
+	})
+	add("leaf-eku-first-noncritical", false, func(p *chainPlan, pos int, purpose string) bool {
+		if pos != 0 || purpose != "ts" || len(p.certs[0].spec.EKU) == 0 {
+			return false
+		}
+		p.certs[0].spec.EKUFirst = true
+		p.certs[0].spec.EKUExt = ExtNonCritical
+		return true
+	})
+	add("issuer-name-reordered", false, anyPos(func(cp *certPlan, pos, n int) bool { cp.issuerReordered = true; return true }))
 	add("wrong-signer-key", false, anyPos(func(cp *certPlan, pos, n int) bool { cp.signKey = "ec256b"; return pos < n-1 || true }))
 	add("self-signed-here", false, anyPos(func(cp *certPlan, pos, n int) bool {
 		if pos == n-1 {
